@@ -80,6 +80,7 @@ type World struct {
 	stepIdx  int
 	beginReq abci.RequestBeginBlock
 	blockTxs [][]byte
+	crashAtEnd int // 1+node index to crash between EndBlock and Commit of the current block
 	journal  []func(n *Node) // everything applied to the nodes in the current block, for replay after a crash
 	stash    map[int][]byte
 	files    []*FileInst
@@ -355,6 +356,15 @@ func (w *World) EndBlockCommit() bool {
 		}
 	}
 	w.blkHash = append(w.blkHash, "E:"+e0)
+	w.journal = append(w.journal, func(n *Node) { n.app.EndBlock(abci.RequestEndBlock{Height: w.height}) })
+	if w.crashAtEnd > 0 {
+		// the process dies after EndBlock, before Commit: nothing of this block is durable
+		w.crashRestart(w.crashAtEnd - 1)
+		w.crashAtEnd = 0
+		if w.stop {
+			return false
+		}
+	}
 	for i, n := range w.nodes {
 		var res abci.ResponseCommit
 		n := n
@@ -533,6 +543,8 @@ func (w *World) execStep(st *Step) {
 		w.deliverJudged(st, txd.GetMsgs(), bz)
 	case "crash":
 		w.crashRestart(int(st.N["node"]))
+	case "crash_end":
+		w.crashAtEnd = 1 + int(st.N["node"])
 	case "param":
 		w.applyParam(st)
 	default:
